@@ -62,3 +62,11 @@ pub assume_specification [<std::ffi::OsString as core::ops::Deref>::deref] (s: &
 pub assume_specification [<std::path::PathBuf as core::ops::Deref>::deref] (s: &std::path::PathBuf) -> &std::path::Path;
 #[verifier::external_type_specification] #[verifier::external_body]
 pub struct ExCancellationToken(tokio_util::sync::CancellationToken);
+// -- std::sync::Mutex::try_lock: "If the lock could not be acquired at this time, then Err is returned" (WouldBlock whenever
+//    another thread holds the lock; Poisoned if a holder panicked): the result is UNCONSTRAINED.
+#[verifier::external_type_specification] #[verifier::reject_recursive_types(T)]
+pub struct ExTryLockError<T>(std::sync::TryLockError<T>);
+pub assume_specification<T: ?Sized> [std::sync::Mutex::<T>::try_lock] (m: &std::sync::Mutex<T>) -> (r: std::sync::TryLockResult<std::sync::MutexGuard<'_, T>>);
+#[verifier::external_body] pub broadcast proof fn axiom_fmt_try_lock_error<T>() ensures #[trigger] vstd::std_specs::fmt::fmt_req_all::<std::sync::TryLockError<T>>() {}
+#[verifier::external_body] pub broadcast proof fn axiom_fmt_poison_error<T>() ensures #[trigger] vstd::std_specs::fmt::fmt_req_all::<std::sync::PoisonError<T>>() {}
+pub broadcast group group_fmt_lock_errors { axiom_fmt_try_lock_error, axiom_fmt_poison_error }
